@@ -167,6 +167,11 @@ let rd_stmt () : stmt =
     let ob () = match next () with "_" -> None | t -> Some (coqz_of_string t) in
     let lo = ob () in let hi = ob () in let ev = next () = "1" in SSetSlice (x, lo, hi, ev, rd_val ())
   | "opindex" -> let x = nn () in let i = zz () in let op = nn () in SOpIndex (x, i, op, rd_val ())
+  | "everyopindex" -> let x = nn () in let i = zz () in let op = nn () in SEveryOpIndex (x, i, op, rd_val ())
+  | "everyopslice" ->
+    let x = nn () in
+    let ob () = match next () with "_" -> None | t -> Some (coqz_of_string t) in
+    let lo = ob () in let hi = ob () in let op = nn () in SEveryOpSlice (x, lo, hi, op, rd_val ())
   | s -> raise (Bad ("stmt " ^ s))
 
 (* x=<value>:<does the value satisfy the declared type: 1 / 0 / e> *)
